@@ -513,5 +513,65 @@ def Op.affected : Op → Bool
   | .httpseeds (.edit op) => op.isSet
   | _ => false
 
+/-! ### a `Trackers` object that the caller keeps (`tr = torrent.trackers; tr.replace(…); tr.append(…)`)
+
+Only as far as finding D16d needs it: the object's tiers and whether its change callback is still
+set.  While the callback is set, an operation on the held object writes exactly what the same
+operation through a fresh getter call writes (`heldAppend`/`heldReplace` use the same `tiersInsert`
+and `writeTrackers`), which is why the correspondence harness translates held-object histories
+into the fresh-getter state machine above. -/
+
+structure HeldTr where
+  tiers : Tiers
+  cb : Bool := true
+  deriving DecidableEq, Repr
+
+/-- `self._tiers.clear(); for urls in tiers: self.append(urls)` (callback disabled): the tiers
+    appended before a failure stay in the object -/
+def heldReplaceLoop : Tiers → List TierVal → Tiers × Outcome
+  | T, [] => (T, .ok)
+  | T, v :: vs =>
+    match tiersInsert isUrl T T.length v with
+    | .error e => (T, .error e)
+    | .ok T' => heldReplaceLoop T' vs
+
+/-- `Trackers.replace(vs)`: `with self._callback_disabled(): …` then the callback.
+    `_callback_disabled()` restores the callback after its `yield` without `try/finally`, so an
+    exception inside the block leaves the callback `None` for good. -/
+def heldReplace (s : MI) (h : HeldTr) (vs : List TierVal) : MI × HeldTr × Outcome :=
+  match heldReplaceLoop isUrl [] vs with
+  | (T', .error e) => (s, { tiers := T', cb := false }, .error e)
+  | (T', .ok) => (if h.cb then writeTrackers s (wOf T') else s, { h with tiers := T' }, .ok)
+
+/-- `Trackers.append(v)` on the held object -/
+def heldAppend (s : MI) (h : HeldTr) (v : TierVal) : MI × HeldTr × Outcome :=
+  match tiersInsert isUrl h.tiers h.tiers.length v with
+  | .error e => (s, h, .error e)
+  | .ok T' => (if h.cb then writeTrackers s (wOf T') else s, { h with tiers := T' }, .ok)
+
+/-- `Trackers.clear()` on the held object -/
+def heldClear (s : MI) (h : HeldTr) : MI × HeldTr × Outcome :=
+  (if h.cb then writeTrackers s (wOf []) else s, { h with tiers := [] }, .ok)
+
+inductive HOp | replace (vs : List TierVal) | append (v : TierVal) | clear
+  deriving Repr
+
+def heldStep (s : MI) (h : HeldTr) : HOp → MI × HeldTr × Outcome
+  | .replace vs => heldReplace isUrl s h vs
+  | .append v => heldAppend isUrl s h v
+  | .clear => heldClear s h
+
+def heldRun (s : MI) (h : HeldTr) : List HOp → MI × HeldTr
+  | [] => (s, h)
+  | op :: ops => match heldStep isUrl s h op with
+    | (s', h', _) => heldRun s' h' ops
+
+/-- the metainfo mirrors the held object: announce = first URL of its first tier (or absent),
+    announce-list = its tiers iff it has more than one URL -/
+def Mirrors (s : MI) (T : Tiers) : Prop :=
+  s.announce = (wOf T).1 ∧ s.announceList = (if (wOf T).2.1 ≤ 1 then none else some T)
+
+instance (s : MI) (T : Tiers) : Decidable (Mirrors s T) := by unfold Mirrors; infer_instance
+
 end
 end Torf.Lists
